@@ -75,6 +75,238 @@ fn upper_line(t: &[&str]) -> String {
     }
 }
 
+// ---------------------------------------------------------------------------------------------------
+// c07: mount mutated boot / FS-info sectors on top of a template image (one line in, one line out).
+//   "tmpl <devlen> <bps|-> <total_sectors|-> <bytes_per_cluster|-> <12|16|32>"
+//        formats a fresh sparse device, creates the one-cluster file "f", unmounts, keeps the image as template
+//        -> "ok <devlen> <off>:<hex4096> ..."   (all pages that are not all-zero)   | "err ..." | "panic <hexmsg>"
+//   "m <strict 0/1> <budget> <flags> <off>:<hex>,<off>:<hex>,...|-"
+//        copy of the template with these bytes poked, FileSystem::new under catch_unwind, then (on success)
+//        read_status_flags, stats (device call budget: a scan of a huge FAT is cut off), and with flag "r"
+//        remove("f") + unmount with the write log on, to see the FS-info values the library held;
+//        flag "t=<n>" cuts the device to n bytes
+//        -> "err <Variant>" | "panic <hexmsg>" | "hang"
+//         | "ok <fatbits> <cluster_size> <total|?> <free|?> <scanned 0/1|?> <dirty|?> <io_error|?> <volume_id>
+//               <stats: ok|err:<Variant>|panic:<hexmsg>|hang> <rm: -|ok|err:<Variant>|panic:..|hang>
+//               <fsinfo write: -|<off>:<free>:<next>>"
+struct C07 {
+    tmpl: Option<crate::dev::DevState>,
+}
+
+fn c07_err(e: &fatfs::Error<crate::dev::DevError>) -> String {
+    match e {
+        fatfs::Error::Io(d) => format!("Io:{}", d.tag),
+        fatfs::Error::UnexpectedEof => "UnexpectedEof".into(),
+        fatfs::Error::WriteZero => "WriteZero".into(),
+        fatfs::Error::InvalidInput => "InvalidInput".into(),
+        fatfs::Error::NotFound => "NotFound".into(),
+        fatfs::Error::AlreadyExists => "AlreadyExists".into(),
+        fatfs::Error::DirectoryIsNotEmpty => "DirectoryIsNotEmpty".into(),
+        fatfs::Error::CorruptedFileSystem => "CorruptedFileSystem".into(),
+        fatfs::Error::NotEnoughSpace => "NotEnoughSpace".into(),
+        fatfs::Error::InvalidFileNameLength => "InvalidFileNameLength".into(),
+        fatfs::Error::UnsupportedFileNameCharacter => "UnsupportedFileNameCharacter".into(),
+        _ => "Other".into(),
+    }
+}
+
+fn c07_guard<T>(f: impl FnOnce() -> Result<T, fatfs::Error<crate::dev::DevError>>) -> Result<T, String> {
+    match catch_unwind(AssertUnwindSafe(f)) {
+        Ok(Ok(v)) => Ok(v),
+        Ok(Err(e)) => Err(format!("err:{}", c07_err(&e))),
+        Err(p) => {
+            if p.downcast_ref::<crate::dev::BudgetExhausted>().is_some() {
+                Err("hang".into())
+            } else {
+                let msg = crate::PANIC_MSG.with(|m| m.borrow().clone());
+                Err(format!("panic:{}", hex(msg.as_bytes())))
+            }
+        }
+    }
+}
+
+// drop the FileSystem (its destructor writes the FS-info sector / dirty flag into the throw-away image copy) under a
+// small call budget; the image copy is freed with it
+fn c07_discard(st: &std::rc::Rc<std::cell::RefCell<crate::dev::DevState>>, fs: crate::Fs) {
+    st.borrow_mut().budget = Some(10000);
+    st.borrow_mut().log_writes = false;
+    if catch_unwind(AssertUnwindSafe(move || drop(fs))).is_err() {
+        // a destructor that panics or loops: nothing to free safely
+    }
+}
+
+fn c07_opts(strict: bool) -> fatfs::FsOptions<crate::Clock, crate::Oem> {
+    fatfs::FsOptions::new()
+        .time_provider(crate::Clock)
+        .oem_cp_converter(crate::Oem)
+        .update_accessed_date(false)
+        .strict(strict)
+}
+
+impl C07 {
+    fn tmpl(&mut self, t: &[&str]) -> String {
+        use fatfs::Write;
+        let devlen: u64 = t[1].parse().unwrap();
+        let st = std::rc::Rc::new(std::cell::RefCell::new(crate::dev::DevState::new(devlen, 0)));
+        st.borrow_mut().log_writes = false;
+        let r = c07_guard(|| {
+            let mut o = fatfs::FormatVolumeOptions::new();
+            if let Some(v) = opt::<u16>(t[2]) {
+                o = o.bytes_per_sector(v);
+            }
+            if let Some(v) = opt::<u32>(t[3]) {
+                o = o.total_sectors(v);
+            }
+            if let Some(v) = opt::<u32>(t[4]) {
+                o = o.bytes_per_cluster(v);
+            }
+            match t[5] {
+                "12" => o = o.fat_type(fatfs::FatType::Fat12),
+                "16" => o = o.fat_type(fatfs::FatType::Fat16),
+                "32" => o = o.fat_type(fatfs::FatType::Fat32),
+                _ => {}
+            }
+            let mut d = crate::dev::Dev(st.clone());
+            fatfs::format_volume(&mut d, o)?;
+            st.borrow_mut().pos = 0;
+            let fs = crate::Fs::new(crate::dev::Dev(st.clone()), c07_opts(true))?;
+            {
+                let mut f = fs.root_dir().create_file("f")?;
+                f.write_all(b"x")?;
+                f.flush()?;
+            }
+            fs.unmount()?;
+            Ok(())
+        });
+        if let Err(e) = r {
+            return e;
+        }
+        let d = st.borrow();
+        let mut s = format!("ok {}", devlen);
+        for pg in d.page_numbers() {
+            let mut buf = vec![0u8; crate::dev::PAGE as usize];
+            d.peek(pg * crate::dev::PAGE, &mut buf);
+            if buf.iter().any(|b| *b != 0) {
+                s.push_str(&format!(" {}:{}", pg * crate::dev::PAGE, hex(&buf)));
+            }
+        }
+        self.tmpl = Some(d.clone_image());
+        s
+    }
+
+    fn m(&mut self, t: &[&str]) -> String {
+        let strict = t[1] != "0";
+        let budget: u64 = t[2].parse().unwrap();
+        let flags = t[3];
+        let mut img = match &self.tmpl {
+            Some(d) => d.clone_image(),
+            None => return "bad no template".into(),
+        };
+        if t[4] != "-" {
+            for c in t[4].split(',') {
+                let mut it = c.split(':');
+                let off: u64 = it.next().unwrap().parse().unwrap();
+                img.poke(off, &unhex(it.next().unwrap()));
+            }
+        }
+        if let Some(i) = flags.find("t=") {
+            // device cut short: reads past this length deliver nothing
+            let digits: String = flags[i + 2..].chars().take_while(|c| c.is_ascii_digit()).collect();
+            img.len = digits.parse().unwrap();
+        }
+        let st = std::rc::Rc::new(std::cell::RefCell::new(img));
+        let fs = match c07_guard(|| crate::Fs::new(crate::dev::Dev(st.clone()), c07_opts(strict))) {
+            Ok(fs) => fs,
+            Err(e) => {
+                return if let Some(x) = e.strip_prefix("err:") {
+                    format!("err {}", x)
+                } else if let Some(x) = e.strip_prefix("panic:") {
+                    format!("panic {}", x)
+                } else {
+                    e
+                }
+            }
+        };
+        let bits = match fs.fat_type() {
+            fatfs::FatType::Fat12 => 12,
+            fatfs::FatType::Fat16 => 16,
+            fatfs::FatType::Fat32 => 32,
+        };
+        let cs = fs.cluster_size();
+        let volid = fs.volume_id();
+        st.borrow_mut().budget = Some(budget);
+        let (dirty, ioerr) = match c07_guard(|| fs.read_status_flags()) {
+            Ok(f) => ((f.dirty() as u8).to_string(), (f.io_error() as u8).to_string()),
+            Err(_) => ("?".to_string(), "?".to_string()),
+        };
+        st.borrow_mut().budget = Some(budget);
+        let calls0 = st.borrow().ncalls;
+        let (total, free, scanned, sres) = match c07_guard(|| fs.stats()) {
+            Ok(s) => {
+                let scanned = st.borrow().ncalls != calls0;
+                (
+                    s.total_clusters().to_string(),
+                    s.free_clusters().to_string(),
+                    (scanned as u8).to_string(),
+                    "ok".to_string(),
+                )
+            }
+            Err(e) => ("?".into(), "?".into(), "?".into(), e),
+        };
+        let mut rm = "-".to_string();
+        let mut fsw = "-".to_string();
+        if flags.contains('r') && sres == "ok" {
+            st.borrow_mut().budget = Some(budget);
+            st.borrow_mut().log_writes = true;
+            rm = match c07_guard(|| fs.root_dir().remove("f")) {
+                Ok(()) => "ok".to_string(),
+                Err(e) => e,
+            };
+            if !rm.starts_with("panic") && rm != "hang" {
+                st.borrow_mut().budget = Some(budget);
+                let un = c07_guard(|| fs.unmount());
+                if un.is_ok() {
+                    let d = st.borrow();
+                    let mut lead: Option<u64> = None;
+                    let mut fv: Option<u32> = None;
+                    let mut nv: Option<u32> = None;
+                    for e in d.events.iter() {
+                        if let crate::dev::Event::Write { off, data, .. } = e {
+                            if data.len() == 4 {
+                                let v = u32::from_le_bytes([data[0], data[1], data[2], data[3]]);
+                                if v == 0x4161_5252 {
+                                    lead = Some(*off);
+                                    fv = None;
+                                    nv = None;
+                                } else if let Some(x) = lead {
+                                    if *off == x + 488 {
+                                        fv = Some(v);
+                                    } else if *off == x + 492 {
+                                        nv = Some(v);
+                                    }
+                                }
+                            }
+                        }
+                    }
+                    if let (Some(x), Some(f), Some(n)) = (lead, fv, nv) {
+                        fsw = format!("{}:{}:{}", x, f, n);
+                    }
+                } else {
+                    rm = format!("{}+unmount:{}", rm, un.err().unwrap());
+                }
+            } else {
+                c07_discard(&st, fs);
+            }
+        } else {
+            c07_discard(&st, fs);
+        }
+        format!(
+            "ok {} {} {} {} {} {} {} {} {} {} {}",
+            bits, cs, total, free, scanned, dirty, ioerr, volid, sres, rm, fsw
+        )
+    }
+}
+
 pub fn main(args: &[String]) {
     let stdin = std::io::stdin();
     let stdout = std::io::stdout();
@@ -97,6 +329,7 @@ pub fn main(args: &[String]) {
         out.flush().unwrap();
         return;
     }
+    let mut c07 = C07 { tmpl: None };
     for line in stdin.lock().lines() {
         let line = line.unwrap();
         let t: Vec<&str> = line.trim().split(' ').collect();
@@ -106,6 +339,11 @@ pub fn main(args: &[String]) {
         let r = match mode {
             "fmtbs" => fmtbs_line(&t),
             "upper" => upper_line(&t),
+            "c07" => match t[0] {
+                "tmpl" => c07.tmpl(&t),
+                "m" => c07.m(&t),
+                _ => "bad".to_string(),
+            },
             _ => "bad mode".to_string(),
         };
         writeln!(out, "{}", r).unwrap();
